@@ -354,7 +354,8 @@ structure Insp (cfg : Config) (mv : Nat) (db0 db : DB R) (acc : List (ConsumerRe
   old : ∀ c ∈ db0.consumers, c ∈ db.consumers
   split : ∀ c ∈ db.consumers, (c ∈ db0.consumers ∧ c.id ∉ created) ∨
             (c.id ∈ created ∧ ∀ c0 ∈ db0.consumers, c0.uuid ≠ c.uuid)
-  fromAcc : ∀ c ∈ db.consumers, c.id ∈ created → ∃ t ∈ acc, t.2.1 = c
+  fromAcc : ∀ c ∈ db.consumers, c.id ∈ created → ∃ t ∈ acc, t.2.1 = c ∧
+              c.project = t.2.2.project ∧ c.user = t.2.2.user ∧ c.ctype = t.2.2.ctype
   acc : ∀ t ∈ acc, t.2.1 ∈ db.consumers ∧ t.2.1.uuid = t.1.uuid ∧ AttrOK db t.2.1 t.2.2 ∧
           t.2.2 = reqAttr cfg mv t.1
 
@@ -425,7 +426,7 @@ theorem Insp.step {cfg : Config} {mv : Nat} {db0 db db1 : DB R} {acc : List (Con
             exact ⟨t, List.mem_append_left _ ht, e⟩
           · rw [hid] at hi; omega
         · simp at hx; subst hx
-          exact ⟨_, List.mem_append_right _ (List.mem_singleton.2 rfl), rfl⟩
+          exact ⟨_, List.mem_append_right _ (List.mem_singleton.2 rfl), rfl, rfl, rfl, rfl⟩
       acc := fun t ht => by
         rcases List.mem_append.1 ht with ht | ht
         · obtain ⟨h1, h2, h3, h4⟩ := h.acc t ht
